@@ -11,3 +11,28 @@ package olric
 //@   requires #args: len(cmd.Args) >= 1
 //@   loop 0 invariant #bounded: partID <= db.config.PartitionCount
 //@   loop 0 decreases db.config.PartitionCount - partID
+
+// ---------------------------------------------------------------------------------------------------
+// C05: every request over the network passes preconditionFunc; below the member-count quorum it answers with
+// the cluster-quorum error and the handler is not invoked (see internal/server Handler.ServeRESP).
+//@ func convertClusterError(err error) error
+//@   props C05
+//@   flag termination
+//@   ensures #quorum: err == routingtable.ErrClusterQuorum ==> result == ErrClusterQuorum
+//@   ensures #nil_iff: (result == nil) == (err == nil)
+//@   modifies nothing
+
+//@ func (db *Olric) isOperable() error
+//@   props C05
+//@   flag termination
+//@   requires #wired: db != nil && db.rt != nil && db.rt.config != nil
+//@   ensures #below_quorum_refused [C05]: db.rt.below_quorum() ==> result == ErrClusterQuorum
+//@   ensures #ok_means_quorum [C05]: result == nil ==> !db.rt.below_quorum()
+//@   modifies nothing
+
+//@ func (db *Olric) preconditionFunc(conn redcon.Conn, _ redcon.Command) bool
+//@   props C05
+//@   flag termination
+//@   requires #wired: db != nil && db.rt != nil && db.rt.config != nil && conn != nil
+//@   ensures #gate [C05]: result ==> !db.rt.below_quorum()
+//@   ensures #refuse [C05]: db.rt.below_quorum() ==> !result
